@@ -1410,11 +1410,13 @@ def sweep(ctx, words, label):
 
 
 def run(ctx):
-    ctx.rule = ("one API = 6 methods with 1..3 http bindings (five verbs, `*`/field/absent body, top-level, nested and reserved-name "
-                "path variables with and without sub-templates, `:verb` suffixes, required fields of every scalar kind, enums, repeated "
-                "scalars, nested messages, well-known types, proto3-optional, oneof, maps/repeated messages for bodies) + a method without "
-                "usable binding, x rest-numeric-enums {off,on} x transport {rest, grpc+rest} x 4..6 random valuations per method "
-                "(path values needing percent-encoding) and scripted JSON replies; a case is distinct by (bindings, request, numeric); "
+    ctx.rule = ("one API = 6 methods with 1..3 http bindings (five verbs, `*`/field/absent body, top-level and nested path variables, "
+                "reserved words as top-level name / leaf / non-leaf segment, with and without sub-templates, `**`, `:verb` suffixes, required "
+                "fields of every scalar kind or none at all, enums, repeated scalars, nested messages, well-known types, proto3-optional, "
+                "oneof, maps/repeated messages for bodies) + a method without usable binding (+ sometimes the AIP-134 PATCH/update_mask shape "
+                "and a client-streaming method) x rest-numeric-enums {off,on} x transport {rest, grpc+rest} x 4..6 random valuations per "
+                "method (path values needing percent-encoding) passed as instance / dict / hand-written literal dict, scripted JSON replies "
+                "with statuses 200..503, two calls repeated on the same client; a case is distinct by (bindings, request, numeric); "
                 "non-trivial = non-empty request or a method without binding")
     ctx.assume("path-variable values contain no `?`, `#`, `%` and no `/` inside a single-segment variable: api-core substitutes them "
                "unencoded (URL-encoding of api-core/requests is outside the property, DESIGN 7.4)")
@@ -1424,7 +1426,9 @@ def run(ctx):
     ctx.assume("a required ENUM field is not a 'required scalar field': the template deliberately writes {} for it (nothing is sent)")
     ctx.assume("generated field names are lower snake_case (style guide); the excluded point (a required field called `userID`: "
                "to_camel_case differs from the JSON name) is replayed from the corpus and is a known finding")
-    ctx.assume("reserved words are not used in NESTED path variables ({book.class=…} makes client.py unparsable: C12, DESIGN 9-F1)")
+    ctx.assume("google.api.http.response_body is not generated: the generator ignores it (probe: `response_body: \"book\"`, the server "
+               "answers with the Book, the client returns an EMPTY response message); not in the property's quantifier, reported to the coordinator")
+    ctx.assume("error replies: only the `status >= 400 raises / else parses` split is compared with the model; the exception class is api-core's")
     ctx.assume("LRO, server-streaming framing and custom verbs with usable additional bindings are not exercised (C08 / not covered)")
     load_reserved()
     run_corpus(ctx)
@@ -1472,8 +1476,10 @@ CLAIM = dict(
           "(nothing lost, nothing twice), verb and path instantiate a declared binding, every required field the generator leaves to the "
           "query is present under its JSON name (camel_case = ToJsonName on lower snake_case), added defaults belong to unbound fields whenever "
           "the generator's query_params table agrees with the binding used (proved for the primary binding under an explicit template-reading "
-          "hypothesis), `$alt` is sent iff numeric enums are on, and exactly the methods without usable binding (or client-streaming) raise "
-          "NotImplementedError; counterexample theorems for the five ways the real code violates the statement. Tie: T1 bridge for RESERVED_NAMES; "
+          "hypothesis) and then exactly for the required fields that binding leaves unbound and the caller left unset, `$alt` is sent iff numeric "
+          "enums are on, the first declared binding that applies is used, a reply is parsed iff its status is below 400, and exactly the "
+          "methods without usable binding (or client-streaming) raise NotImplementedError; counterexample theorems for the ways the real code "
+          "still violates the statement and regression theorems for the repaired ones. Tie: T1 bridge for RESERVED_NAMES; "
           "T2 the real schema functions, uri_conv, to_camel_case, protobuf ToJsonName and google.api_core.path_template.transcode vs the model; "
           "T3 the emitted REST transport against a loopback HTTP server vs the model; a model-independent oracle that re-assembles the request "
           "from path variables, JSON body and query string under the input descriptors."),
